@@ -101,6 +101,16 @@ MUTATIONS = {
         old="and mul(*self._original_size) <= mul(*self._get_render_size())\n",
         new="\n",
     ),
+    "c03-iterm-lines-second-cell-read": dict(  # seeded/C03-s2: needs a cell size change mid-render
+        file="image/iterm2.py", props=["C03"],
+        old="            cell_height = height // r_height\n            bytes_per_line = width * cell_height * (len(img.mode))",
+        new="            cell_height = self._pixels_lines(lines=1)\n            bytes_per_line = width * cell_height * (len(img.mode))",
+    ),
+    "c03-kitty-lines-second-cell-read": dict(
+        file="image/kitty.py", props=["C03"],
+        old="            cell_height = height // r_height\n",
+        new="            cell_height = self._pixels_lines(lines=1)\n",
+    ),
     "c03-kitty-whole-at-render-size": dict(
         file="image/kitty.py", props=["C03"],
         old="self._get_minimal_render_size()\n            if render_method == WHOLE",
